@@ -369,7 +369,8 @@ class Bicomplex(object):
         sign = np.where((z1.real == 0) * (z2.real == 0), 0, np.where(0 <= z2.real, 1, -1))
         # clip to avoid nans for complex args
         arg = z2 / (z1 + _TINY).clip(min=-1e150, max=1e150)
-        arg_c = np.arctan(arg) + sign * np.pi * (z1.real <= 0)
+        # the half-plane correction belongs to Re(z1) < 0 only: for Re(z1) == 0 arctan already gives +-pi/2
+        arg_c = np.arctan(arg) + sign * np.pi * (z1.real < 0)
         return arg_c
 
     def arg_c1p(self):
